@@ -58,13 +58,20 @@ var c11sStmts = []string{
 	"insert into t(a) values",       // no variables
 	"select 1",                      // no values keyword
 	"insert into t(a, b) values (?)", // columns and variables mismatch
+	// round 5c: the driver no longer has a table, it runs the Lean model of parseInsertStmt on the SAME strings
+	"insert into myvalues(a) values (?)",                              // the keyword inside the table name: rejected (no variables)
+	"INSERT INTO t ( a ) VALUES(?)",                                   // blanks in the column list, no blank before the row
+	"insert into t(a) values (?) on duplicate key update a=values(a)", // the keyword again in the suffix
+	"values (?)",                                                      // keyword at position 0: bad sql
+	"insert into t(a,,b) values (?)",                                  // empty column field is dropped: 2 columns, 1 variable
+	"insert\tinto t(a)\nvalues\t(?)\n ON DUPLICATE KEY UPDATE a = 1 \t\n", // tabs and newlines, trimmed suffix
 }
 
 func c11sUS(s string) string {
 	if s == "" {
 		return "-"
 	}
-	return strings.ReplaceAll(s, " ", "_")
+	return strings.NewReplacer(" ", "_", "\t", "~", "\n", "^").Replace(s)
 }
 
 func c11sHash(s string) uint32 {
@@ -298,7 +305,7 @@ func c11sGen(r *verifh.Rng) []verifh.Section {
 		ninst := r.Range(1, 3)
 		pending := make([]int, ninst)
 		for k := 0; k < ninst; k++ {
-			ops = append(ops, fmt.Sprintf("new %d %d", k, r.Pick(0, 1, 1, 2, 3, 3, 4, 5, 6)))
+			ops = append(ops, fmt.Sprintf("new %d %d", k, r.Pick(0, 1, 1, 2, 3, 3, 4, 5, 6, 7, 8, 9, 10, 11, 12)))
 		}
 		for j := r.Range(4, 16); j > 0; j-- {
 			k := r.Intn(ninst)
@@ -318,7 +325,7 @@ func c11sGen(r *verifh.Rng) []verifh.Section {
 				ops = append(ops, fmt.Sprintf("upd %d", k))
 				pending[k] = 0
 			case x < 9:
-				ops = append(ops, fmt.Sprintf("stmt %d %d", k, r.Pick(0, 1, 1, 2, 3, 3, 4, 6)))
+				ops = append(ops, fmt.Sprintf("stmt %d %d", k, r.Pick(0, 1, 1, 2, 3, 3, 4, 6, 7, 8, 9, 12)))
 				pending[k] = 0
 			case x < 10 || x >= 12:
 				switch r.Intn(6) {
